@@ -102,6 +102,15 @@ pub fn gen_tab(src: &mut Src, prec: u32, sel: u8, max_syms: usize) -> Tab {
     Tab { cdf, prec, sel }
 }
 
+thread_local! {
+    /// number of times a coder handed a quantile >= 2^PRECISION to a harness table
+    pub static OUT_OF_RANGE_QUANTILES: core::cell::Cell<u64> = const { core::cell::Cell::new(0) };
+}
+
+pub fn out_of_range_quantiles() -> u64 {
+    OUT_OF_RANGE_QUANTILES.with(|c| c.get())
+}
+
 /// Typed view of a [`Tab`].
 pub struct TV<'a, Pr, const P: usize>(pub &'a Tab, PhantomData<Pr>);
 
@@ -151,8 +160,10 @@ where
     fn quantile_function(&self, q: Pr) -> (usize, Pr, Pr::NonZero) {
         let q: u64 = q.into();
         // A quantile >= 2^P is a contract violation by the *coder*; answer with the last
-        // symbol instead of panicking inside the harness, the oracle will notice.
+        // symbol instead of panicking inside the harness and count the event (C10 reads the
+        // counter).
         let s = if q >= self.0.cdf[self.0.n()] {
+            OUT_OF_RANGE_QUANTILES.with(|c| c.set(c.get() + 1));
             self.0.n() - 1
         } else {
             self.0.lookup(q)
